@@ -607,12 +607,17 @@ def c01_gen(ctx, intensive):
         for s in sizes:
             cid = 'rt%d' % len(cases)
             cases.append((cid, '%s TCP %d %d %d %d %d' % ((cid, pos) + s), dict(pos=pos, sizes=s)))
+    # on a single P (per-P caches such as sync.Pool hand the parked goroutine's leavings to the next one)
+    for pos in (3, 4):
+        for s in sizes[:3]:
+            cid = 'rt%d' % len(cases)
+            cases.append((cid, '%s TCP %d %d %d %d %d 1' % ((cid, pos) + s), dict(pos=pos, sizes=s, procs=1)))
     return cases
 
 
 def c01_schedule(meta, d):
     s = meta['sizes']
-    return ['client.RouteTCP on a harness-owned listener; real client Session <-> real server Session over 2 in-memory connections',
+    return ['client.RouteTCP on a harness-owned listener; real client Session <-> real server Session over 2 in-memory connections' + ('; GOMAXPROCS(1)' if meta.get('procs') else ''),
             'local connection A is accepted; its first packet (%d bytes) is available; its relay goroutine is parked at: %s' % (s[0], POS[meta['pos']]),
             'local connection B is accepted and sends its first packet (%d bytes): %s' % (s[1], {'D': 'delivered to the far end while A is parked', 'T': 'NOT delivered while A is parked', 'N': 'A was not parked'}.get(d.get('state'), d.get('state'))),
             'A is released; A sends %d more bytes, B %d more; the far end writes a token and a second message down each stream' % (s[2], s[3]),
